@@ -6,7 +6,7 @@
    (1) the AST.  `pexp` is a parser (input -> result), `stmt` is the body of a function / closure in continuation
        form over *position variables*: `SApp p x y e kok kerr kfail` runs parser p on the input state held by x;
        on Ok the rest is bound to y and kok continues, on Err::Error / Err::Failure the error's remaining input is
-       bound to e and kerr / kfail continue (kfail = None: same as kerr); `SRet m x` returns Ok / Err / Failure /
+       bound to e and kerr / kfail continue (kfail = None: same as kerr); `SReturn m x` returns Ok / Err / Failure /
        "the result as it is" at the position of x.  `SGuard nom site y a k` compares the length of the input left at y
        with the length at the entry of the enclosing function: equal -> a, otherwise k.  With nom = true it is nom 7's
        `if i1.input_len() == len { return Err(Err::Error(..)) }` inside many0 / many1 / many_till / separated_list0/1;
@@ -61,7 +61,7 @@ Inductive pexp : Type :=
 | PAltBest (flags : list bool) (alts : list pexp)
 | PBlock (s : stmt)
 with stmt : Type :=
-| SRet (m : rmode) (x : nat)
+| SReturn (m : rmode) (x : nat)
 | SApp (p : pexp) (x y e : nat) (kok kerr : stmt) (kfail : option stmt)
 | SIf (site : string) (a b : stmt)
 | SGuard (nom : bool) (site : string) (y : nat) (a k : stmt)
@@ -71,8 +71,8 @@ with stmt : Type :=
 (* nom::sequence::tuple / pair / preceded / delimited ...: each parser on the rest of the previous one, `?` on errors *)
 Fixpoint seq_stmt (l : list pexp) (x v : nat) : stmt :=
   match l with
-  | [] => SRet AsOk x
-  | p :: l' => SApp p x v (S v) (seq_stmt l' v (S (S v))) (SRet AsIs (S v)) None
+  | [] => SReturn AsOk x
+  | p :: l' => SApp p x v (S v) (seq_stmt l' v (S (S v))) (SReturn AsIs (S v)) None
   end.
 Definition PSeq (l : list pexp) : pexp := PBlock (seq_stmt l 0 1).
 
@@ -81,22 +81,22 @@ Definition PSeq (l : list pexp) : pexp := PBlock (seq_stmt l 0 1).
    as an opaque choice) *)
 Fixpoint pick_err (site : string) (es : list nat) : stmt :=
   match es with
-  | [] => SRet AsErr 0
-  | [e] => SRet AsIs e
-  | e :: es' => SIf site (SRet AsIs e) (pick_err site es')
+  | [] => SReturn AsErr 0
+  | [e] => SReturn AsIs e
+  | e :: es' => SIf site (SReturn AsIs e) (pick_err site es')
   end.
 Fixpoint alt_stmt (site : string) (l : list pexp) (v : nat) (errs : list nat) : stmt :=
   match l with
   | [] => pick_err site errs
-  | p :: l' => SApp p 0 v (S v) (SRet AsOk v) (alt_stmt site l' (S (S v)) (S v :: errs)) (Some (SRet AsIs (S v)))
+  | p :: l' => SApp p 0 v (S v) (SReturn AsOk v) (alt_stmt site l' (S (S v)) (S v :: errs)) (Some (SReturn AsIs (S v)))
   end.
 Definition PAlt (site : string) (l : list pexp) : pexp := PBlock (alt_stmt site l 1 []).
 
 (* nom::combinator::opt / peek / not / cut *)
-Definition POpt (p : pexp) : pexp := PBlock (SApp p 0 1 2 (SRet AsOk 1) (SRet AsOk 0) (Some (SRet AsIs 2))).
-Definition PPeek (p : pexp) : pexp := PBlock (SApp p 0 1 2 (SRet AsOk 0) (SRet AsIs 2) None).
-Definition PNot (p : pexp) : pexp := PBlock (SApp p 0 1 2 (SRet AsErr 0) (SRet AsOk 0) (Some (SRet AsIs 2))).
-Definition PCut (p : pexp) : pexp := PBlock (SApp p 0 1 2 (SRet AsOk 1) (SRet AsFail 2) (Some (SRet AsIs 2))).
+Definition POpt (p : pexp) : pexp := PBlock (SApp p 0 1 2 (SReturn AsOk 1) (SReturn AsOk 0) (Some (SReturn AsIs 2))).
+Definition PPeek (p : pexp) : pexp := PBlock (SApp p 0 1 2 (SReturn AsOk 0) (SReturn AsIs 2) None).
+Definition PNot (p : pexp) : pexp := PBlock (SApp p 0 1 2 (SReturn AsErr 0) (SReturn AsOk 0) (Some (SReturn AsIs 2))).
+Definition PCut (p : pexp) : pexp := PBlock (SApp p 0 1 2 (SReturn AsOk 1) (SReturn AsFail 2) (Some (SReturn AsIs 2))).
 
 Definition grammar_t : Type := list (string * pexp).
 
@@ -195,7 +195,7 @@ with evals (O : oracle) (G : grammar_t) (gd : string -> bool) (n : nat) (s : stm
   | 0 => None
   | S n' =>
       match s with
-      | SRet m x => Some (retv m (r x))
+      | SReturn m x => Some (retv m (r x))
       | SApp p x y e kok kerr kfail =>
           match evalp O G gd n' p (pos (r x)) with
           | None => None
@@ -239,7 +239,7 @@ Fixpoint nullp (nu : string -> bool) (p : pexp) : bool :=
   end
 with nulls (nu : string -> bool) (a : aenv) (s : stmt) : bool :=
   match s with
-  | SRet m x => match m with
+  | SReturn m x => match m with
                 | AsOk => negb (fst (a x))
                 | AsIs => negb (fst (a x)) && snd (a x)
                 | _ => false
